@@ -74,7 +74,7 @@ static void run_case(const vector<array<int, 4>> &E, const Cfg &c) {
         if (share) ctx.count("nontrivial");
         ctx.cls("display_bends_conn0", mcx::fmt("%zu", cs[0]->displayRoute().size() - 2));
         delete router;
-    } catch (vpsc::CriticalFailure &f) { ctx.count("aborted_by_assert"); string w = f.what(); size_t p = w.find("expression"); ctx.cls("abort", w.substr(p == string::npos ? 0 : p, 150)); }
+    } catch (vpsc::CriticalFailure &f) { ctx.library_abort(f.what(), desc); }
 #ifdef C10_ARENA
     if (c.heap) mcx::heap_end();
 #endif
